@@ -235,6 +235,13 @@ func c16ChildMain(args []string) {
 		}
 		return
 	}
+	if len(args) >= 1 && args[0] == "corpus-holder" {
+		// minimal members of the holder families (corpus/C16/holder.txt)
+		for _, l := range c16HolderCorpus() {
+			fmt.Println(l)
+		}
+		return
+	}
 	if len(args) >= 2 && args[0] == "render" {
 		// debugging aid: print the configuration file(s) and records of the case lines in a file
 		data, _ := os.ReadFile(args[1])
